@@ -22,6 +22,8 @@ RULE = (
     "drop, fill} with an extra string column and custom point_dimension.  Non-trivial: lists with a "
     "repeat, a non-monotone order or at least one miss."
 )
+LEVEL_TEXT = ('every index list of length <=3 over 4 cells (repeats, all orders) on every grid kind, every point list of length <=4 over {hit, tie, second, miss} under every missing-point policy, for select_index(es), select_points and extract_dataframe, compared with builder labels')
+LEVEL_NOTE = ('pandas/xarray merge semantics; all-miss with drop may be refused')
 ASSUMPTIONS = [
     "all points missing with 'drop' may be refused (DESIGN 6)",
     "variables on no grid (time series) are not constrained by the property and not compared",
